@@ -223,6 +223,15 @@ Theorem C15_globals_readonly : not_allowed allowed writes = [].
 Proof. vm_compute. exact eq_refl. Qed.
 Print Assumptions C15_globals_readonly.
 
+(* precondition of C15_site_perm_invariant_unpack_single against the source:
+   every construction of a tree.ResumeStack in the module is a composite
+   literal with at most one entry (no make(), no conversion); the Go code has
+   no other way to add a key except an index store, of which grep finds none
+   (stated in the trusted base) *)
+Theorem C15_resume_stacks_single_key : forallb single_key_site resume_stack_sites = true.
+Proof. vm_compute. exact eq_refl. Qed.
+Print Assumptions C15_resume_stacks_single_key.
+
 (* non-vacuity *)
 Example C15_anchor_example :
   resolve_anchors [[An [98] 1 1; An [97] 0 0]; [An [97] 5 5; An [65] 2 2]]%N
